@@ -74,6 +74,8 @@ def check(index, ctx):
                                 "in-place on a locally allocated value", f"in-place operation on the input matrix / a configuration tensor or a view of it: `{e['text']}`", e["loc"])
                 # R3 statelessness / rng
                 for e in _events(r, "self_write"):
+                    if e.get("fresh"):
+                        continue  # a field of an object created during this very call (a local helper object): not state that outlives the call
                     ctx.violated("R3", f"{name}: {e['function'].split('.')[-1]}: {e['text']}", f"forward stores to self.{e.get('attr')} — the result may depend on earlier calls", e["loc"])
                 for e in _events(r, "rng"):
                     ctx.require(bool(e.get("torch_global")), "R3", f"{name}: {e['function'].split('.')[-1]}: {e['text']}",
